@@ -1,8 +1,8 @@
 (* C04 - Subdividing or specializing a curve preserves its shape.
    ONLY statements, each closed by `exact`, each followed by Print Assumptions. *)
-From Coq Require Import List Arith QArith Qcanon Reals.
+From Coq Require Import List Arith ZArith QArith Qcanon Reals.
 From BZ Require Import Base.Ops Base.QcInst Model.Curve Model.CurvePy Gen.PyCurveHelpers
-  Theory.CurveEval Theory.CurveSubdiv Theory.CurveTables Base.RInst Theory.Rounding Theory.SubdivRound.
+  Theory.CurveEval Theory.CurveSubdiv Theory.CurveTables Base.RInst Theory.Rounding Theory.SubdivRound Theory.Binary64.
 Import ListNotations.
 
 (* specialize_curve returns the control points of sigma -> B(a + (b-a) sigma):
@@ -85,6 +85,16 @@ Proof.
   - exact (proj1 (subdivide_right_rounding u Hu fl Hs H2 v j Hj)).
 Qed.
 Print Assumptions C04_subdivide_rounding_bound.
+
+(* ... instantiated at correctly rounded 53-bit arithmetic with unbounded exponent (Flocq FLX, u = 2^-53) *)
+Theorem C04_rounding_bounds_binary64 :
+  forall (v : list R) (a b : R) (j : nat), (2 <= length v)%nat -> (j <= length v - 1)%nat ->
+  (Rabs (nth j (specialize (FlOps fl64) v a b) 0 - nth j (specialize ROps v a b) 0)
+   <= ((1 + u64) ^ (3 * (length v - 1)) - 1) * Pabs a b (length v - 1) j v)%R /\
+  (Rabs (nth j (subdivide_left (FlOps fl64) v) 0 - nth j (subdivide_left ROps v) 0)
+   <= ((1 + u64) ^ (4 * (length v - 1) + 2) - 1) * nth j (subdivide_left ROps (map Rabs v)) 0)%R.
+Proof. intros v a b j Hl Hj. split; [exact (specialize_rounding_binary64 v a b j Hl Hj) | exact (subdivide_rounding_binary64 v j Hj)]. Qed.
+Print Assumptions C04_rounding_bounds_binary64.
 
 (* non-vacuity: a concrete cubic meets the hypotheses and the halves are what one expects *)
 Example C04_example :
